@@ -564,6 +564,10 @@ def _main(ck, bdir, cat, rng, scratch, fast, tier):
             ndead += 1
             continue
         ndead += 1
+        if key[0] != "O" and key in acc:
+            # a legacy code of another model that the catalogue excepts: whether it is still accepted from
+            # a thread that has ended is not stated anywhere (ovniemu refuses it: thread not active) - no probe
+            continue
         m = key[0] + chr_of(key[1]) + chr_of(key[2])
         probes.append(("unlisted+ended", key, key[0], pre0 + [ohe_ev, {"th": 1, "m": m, "payload": ""}], 2,
                        (key in acce) if key[0] == "O" else (key in acc), None))
